@@ -180,7 +180,7 @@ def reg_kernels(plan, M, iface, liesel):
     single = {
         "rw": lambda keys: gs.RWKernel(keys, initial_step_size=st),
         "mh_asym": mh_asym, "mh_indep": mh_indep,
-        "iwls": lambda keys: gs.IWLSKernel(keys, initial_step_size=min(1.0, s + 0.2)),
+        "iwls": lambda keys: gs.IWLSKernel(keys, initial_step_size=min(0.95, s + 0.1)),  # never exactly 1: s/2 == s^2/2 there
         # user-supplied information that depends on the kernel's own position
         "iwls_user": lambda keys: gs.IWLSKernel(
             keys, chol_info_fn=lambda ms: cholA * jnp.exp(0.9 * jnp.tanh(jnp.atleast_1d(val(ms, keys[0]))[0])), initial_step_size=1.0),
